@@ -76,9 +76,16 @@ type Plan struct {
 }
 
 // Draw draws a plan from the tape.
-func Draw(t *rt.Tape) *Plan {
+func Draw(t *rt.Tape) *Plan { return DrawTier(t, "quick") }
+
+// DrawTier draws a plan with tier-dependent bounds.
+func DrawTier(t *rt.Tape, tier string) *Plan {
 	p := &Plan{}
-	p.Circ = gen.Circuit(t, gen.CircuitOpts{MaxGates: 120, MaxIn: 10, MaxOutW: 6})
+	mg := 120
+	if tier == "thorough" {
+		mg = 400
+	}
+	p.Circ = gen.Circuit(t, gen.CircuitOpts{MaxGates: mg, MaxIn: 10, MaxOutW: 6})
 	k := 2 + t.Choose(rt.SGen, 5)
 	for i := 0; i < k; i++ {
 		n := 1 + t.Choose(rt.SGen, 10)
